@@ -8,8 +8,10 @@ RULE = ("(a) actions for Display: a multi-byte character of each width (2/3/4 by
         "truncating arms, quotes, empty, 64 KiB strings (ASCII and multi-byte), plus random actions of all 13 kinds with adversarial strings in "
         "every text position; (b) O-C16 projects: loader-accepted evolutions (vcommon generator, loader profile) whose free text (descriptions, "
         "comments, defaults, CHECK expressions, enum labels, custom types, constraint names) is replaced by adversarial strings, histories "
-        "extended the way `vespertide revision` does and sometimes by hand-written raw SQL migrations, plus FK-shaped model sets (including "
-        "FK cycles); every project runs plan_next_migration, build_plan_queries + .build for 3 backends for the new and every recorded plan, "
+        "extended the way `vespertide revision` does and sometimes by hand-written raw SQL migrations, plus FK-shaped model sets and a systematic "
+        "single-column FK-chain stream (head -> tail of 0..3 FK columns -> cycle of 0..3 FK columns: acyclic chains, cycles, rho shapes = tail "
+        "INTO a cycle; across tables, inside one table, through key columns; two table orders; each table rendered with the whole slice as "
+        "context in a child process, so a stack overflow or hang is an outcome of that case); every project runs plan_next_migration, build_plan_queries + .build for 3 backends for the new and every recorded plan, "
         "Display of every action and the 3 exporters, in subprocess batches with a wall-clock cap per stage; "
         "non-trivial = distinct (by hash) project with >= 2 tables or a non-empty history, or distinct action with a non-ASCII string")
 C16_CLS = ["sqlite_numeric", "sqlite_interval", "history_rawsql", "models_fk_cycle", "plan_cycle"]
